@@ -151,6 +151,20 @@ func buildCatalogue() []deviation {
 		// U+017F folds to 's' under Unicode simple case folding
 		m.JWS = append(m.JWS, envcodec.Member{Name: "io.cncf.notary.\u017figningScheme", Raw: envcodec.JStr("notary.x509.signingAuthority")})
 	})
+	lookalike("lookalike-long-s-time", false, func(m *Model) {
+		// the scheme's time header with its first s / S written as U+017F
+		l := m.label("time")
+		if i := strings.IndexAny(l[len("io.cncf.notary."):], "sS"); i >= 0 {
+			i += len("io.cncf.notary.")
+			l = l[:i] + "\u017f" + l[i+1:]
+		}
+		m.JWS = append(m.JWS, envcodec.Member{Name: l, Raw: envcodec.JTime(st0.Add(-480 * time.Hour))})
+	})
+	lookalike("lookalike-long-s-expiry-first", false, func(m *Model) {
+		// "expiry" has no s; the look-alike of the crit list's name has none either:
+		// use the authentic-signing-time name, before everything else
+		m.JWS = append([]envcodec.Member{{Name: "io.cncf.notary.authentic\u017figningTime", Raw: envcodec.JTime(st0.Add(-960 * time.Hour))}}, m.JWS...)
+	})
 	// --- scheme ------------------------------------------------------------------
 	add("scheme-unknown", false, both, func(m *Model) { m.Set("scheme", `"notary.x509.other"`, envcodec.Tstr("notary.x509.other")) })
 	add("scheme-empty", false, both, func(m *Model) { m.Set("scheme", `""`, envcodec.Tstr("")) })
